@@ -94,7 +94,7 @@ def run(ck):
                 raise vf.Infra("self-test: ThreadPool.tla with DtorJoinsAfterStop=FALSE should violate NoJoinableLeft, got %r" % r.violated)
             continue
         for a, (tk, gn) in r.coverage.items():
-            ck.cov[a] = ck.cov.get(a, 0) + tk
+            ck.cov[a] = ck.cov.get(a, 0) + gn
         ck.note("program %d (%s): %s" % (idx, prog_text(case[4], case[5]), r.summary()))
         if r.violated:
             rp = ck.save_replay("impl_spec_%d" % idx, {"tlc.out": r.out, "program.txt": prog_text(case[4], case[5])})
